@@ -13,7 +13,7 @@ from pycaption import CaptionSet, CaptionList, Caption, CaptionNode
 
 LANGS = ["en-US", "fr", "de"]
 WORDS = ["alpha", "beta", "gamma", "delta", "epsilon", "zeta", "eta", "theta"]
-KIND = {"text": 1, "style": 2, "ustyle": 2, "break": 3}   # ustyle: a STYLE node whose content is {} (no span attributes)
+KIND = {"text": 1, "style": 2, "ustyle": 4, "break": 3}   # ustyle: a STYLE node whose content is {} (no span attributes)
 
 
 def tup(x):
@@ -46,6 +46,9 @@ def build(acs):
         lay = None if lg["layout"] is None else geom.mk_layout(tup(lg["layout"]))
         d[lg["name"]] = CaptionList(caps, layout_info=lay)
     g = None if acs["global"] is None else geom.mk_layout(tup(acs["global"]))
+    if acs.get("styles"):
+        # a style class: SAMIWriter writes the set-level padding as margins of its block
+        return CaptionSet(d, styles={"c1": {"color": "white"}}, layout_info=g)
     return CaptionSet(d, layout_info=g)
 
 
@@ -92,6 +95,9 @@ def gen_layout(rng, units, p_none=0.35, pct_safe=False, with_align=True):
     o = None if rng.random() < p_none else (size(), size())
     e = None if rng.random() < p_none else (size(), size())
     p = None if rng.random() < 0.5 else tuple(size() for _ in range(4))
+    if p is not None and rng.random() < 0.2:
+        # Padding(...) built with some parts omitted: they default to 0%
+        p = tuple(x if rng.random() < 0.5 else None for x in p)
     a = None
     if with_align and rng.random() > p_none:
         a = (rng.choice([None, 0, 1, 2, 3, 4]), rng.choice([None, 0, 1, 2]))
@@ -101,7 +107,8 @@ def gen_layout(rng, units, p_none=0.35, pct_safe=False, with_align=True):
 
 
 def gen_capset(rng, units, nlangs=(1, 2), ncaps=(1, 3), levels=("lang", "cap", "node"), p_level=0.5,
-               span_layouts=True, bare_text_layouts=False, with_global=False, pool=None):
+               span_layouts=True, bare_text_layouts=False, with_global=False, pool=None, break_layouts=False,
+               style_only=False, span_text_none=False, unbalanced=False):
     """pool: optional list of layouts to draw from (makes equal layouts at several places frequent)"""
     def lay():
         if pool and rng.random() < 0.6:
@@ -117,15 +124,17 @@ def gen_capset(rng, units, nlangs=(1, 2), ncaps=(1, 3), levels=("lang", "cap", "
             nlines = rng.randint(1, 3)
             for j in range(nlines):
                 if j:
-                    nodes.append(["break", None])
+                    nodes.append(["break", lay() if break_layouts and rng.random() < 0.3 else None])
                 word = WORDS[wi % len(WORDS)] + str(wi)
                 wi += 1
                 r = rng.random()
                 if "node" in levels and span_layouts and r < 0.35:
                     nl = lay()
                     nodes.append(["style", True, nl])
-                    nodes.append(["text", word, nl])
-                    nodes.append(["style", False, nl])
+                    # the text inside usually carries the span's layout (what readers produce); API-built sets may leave it None
+                    nodes.append(["text", word, None if span_text_none and rng.random() < 0.5 else nl])
+                    if not (unbalanced and rng.random() < 0.2):
+                        nodes.append(["style", False, nl])
                 elif span_layouts and 0.35 <= r < 0.5:
                     # a style span WITHOUT a layout of its own: its text belongs to the caption's region
                     kind = "style" if rng.random() < 0.8 else "ustyle"
@@ -136,6 +145,9 @@ def gen_capset(rng, units, nlangs=(1, 2), ncaps=(1, 3), levels=("lang", "cap", "
                     nodes.append(["text", word, lay()])
                 else:
                     nodes.append(["text", word, cl if rng.random() < 0.5 else None])
+            if style_only and rng.random() < 0.15:
+                # a caption of STYLE nodes only (no text): WebVTT still writes a cue for it
+                nodes = [["style", True, None], ["style", False, None]]
             lg["caps"].append({"layout": cl, "nodes": nodes})
         acs["langs"].append(lg)
     return acs
@@ -229,18 +241,26 @@ PCT_LAYOUTS = {
 
 
 def span_grid():
-    """exhaustive: {language layout present/absent} x {caption layout absent / equal to the language's / different}
-    x {span without own layout / with its own / with exactly the DFXP default (alignment start/after only) / with an
-    empty Alignment / equal to the caption's} x nesting depth 1-2 (inner span with / without own layout) x styled / unstyled
-    span; text inside and outside the span(s)."""
+    """exhaustive: {language layout absent / present / exactly the DFXP default} x {caption layout absent / equal to the
+    language's / different / exactly the DFXP default (alignment start/after only) / an empty Alignment}
+    x {span without own layout / with its own / with exactly the DFXP default / with an empty Alignment / equal to the
+    caption's} x nesting depth 1-2 (inner span with / without own layout) x styled / unstyled style node (unstyled: depth 1
+    only); text inside and outside the span(s)."""
     out = []
-    for lang in (None, "L"):
-        for cap in (None, "eq", "C"):
+    for lang in (None, "L", "D"):
+        for cap in (None, "eq", "C", "D", "D0"):
             for styled in ("style", "ustyle"):
                 for s1 in (None, "S", "D", "D0", "eqC"):
                     for depth, s2 in ((1, None), (2, None), (2, "S2")):
-                        ll = PCT_LAYOUTS["L"] if lang else None
-                        cl = None if cap is None else (PCT_LAYOUTS["L"] if cap == "eq" else PCT_LAYOUTS["C"])
+                        if styled == "ustyle" and depth == 2:
+                            continue
+                        ll = PCT_LAYOUTS[lang] if lang else None
+                        if cap is None:
+                            cl = None
+                        elif cap == "eq":
+                            cl = ll if ll is not None else PCT_LAYOUTS["L"]
+                        else:
+                            cl = PCT_LAYOUTS[cap]
                         if s1 == "eqC":
                             # node layout equal to the caption's (a separately built, equal Layout object)
                             if cl is None:
@@ -257,3 +277,54 @@ def span_grid():
                         out.append({"global": None, "langs": [{"name": "en-US", "layout": ll,
                                                                "caps": [{"layout": cl, "nodes": nodes}]}]})
     return out
+
+
+def alignment_grid():
+    """every (horizontal, vertical) alignment pair (6 x 4 incl. None) at language, caption and span level, next to an origin"""
+    out = []
+    for h in (None, 0, 1, 2, 3, 4):
+        for v in (None, 0, 1, 2):
+            lay = (((10, 2), (20, 2)), None, None, (h, v), None)
+            only = (None, None, None, (h, v), None)
+            for level in ("lang", "cap", "span"):
+                for l in (lay, only):
+                    nodes = [["text", "w0", None]]
+                    if level == "span":
+                        nodes += [["break", None], ["style", True, l], ["text", "w1", l], ["style", False, l]]
+                    out.append({"global": None, "langs": [{"name": "en-US", "layout": l if level == "lang" else None,
+                                                           "caps": [{"layout": l if level == "cap" else None, "nodes": nodes}]}]})
+    return out
+
+
+def padding_grid():
+    """Padding objects with every subset of omitted parts (they default to 0%), at caption and span level"""
+    out = []
+    for mask in range(16):
+        pad = tuple((1 + i, 2) if mask & (1 << i) else None for i in range(4))
+        lay = (((10, 2), (20, 2)), ((60, 2), (30, 2)), pad, None, None)
+        for level in ("cap", "span"):
+            nodes = [["text", "w0", None]]
+            if level == "span":
+                nodes += [["break", None], ["style", True, lay], ["text", "w1", lay], ["style", False, lay]]
+            out.append({"global": None, "langs": [{"name": "en-US", "layout": None,
+                                                   "caps": [{"layout": lay if level == "cap" else None, "nodes": nodes}]}]})
+    return out
+
+
+def many_layouts():
+    """14 pairwise different layouts in one set: region ids r0 .. r13 (two digits)"""
+    caps = []
+    for i in range(14):
+        caps.append({"layout": (((i, 2), (2 * i, 2)), None, None, None, None), "nodes": [["text", "w%d" % i, None]]})
+    return {"global": None, "langs": [{"name": "en-US", "layout": None, "caps": caps}]}
+
+
+def set_level_cases():
+    """set-level layout: alone, and equal to a layout that has a region (then get_positioning_info finds that region)"""
+    g = (((40, 2), (40, 2)), None, None, None, None)
+    return [
+        {"global": g, "langs": [{"name": "en-US", "layout": None, "caps": [{"layout": None, "nodes": [["text", "w0", None]]}]}]},
+        {"global": g, "langs": [{"name": "en-US", "layout": None, "caps": [{"layout": None, "nodes": [["text", "w0", None]]}]},
+                                {"name": "fr", "layout": None, "caps": [{"layout": g, "nodes": [["text", "w1", None]]}]}]},
+        {"global": g, "langs": [{"name": "en-US", "layout": PCT_LAYOUTS["L"], "caps": [{"layout": None, "nodes": [["text", "w0", None]]}]}]},
+    ]
